@@ -96,7 +96,7 @@ def check(run, prog):
     # ------------------------------------------------------------------ R2
     fref = sp.Symbol("fref", positive=True)
     scen = [("RadioSignal", 3, "center", None, True), ("RadioSignal", 4, "bottom", fref, True),
-            ("BasebandSignal", 2, "top", fref, False)]
+            ("BasebandSignal", 2, "top", fref, False), ("RadioSignal", 1, "center", fref, True)]
     if run.tier == "thorough":
         scen += [("IntensitySignal", 5, "center", fref, True), ("RadioSignal", 4, "top", None, False),
                  ("DualPolarizationSignal", 3, "center", None, True)]
@@ -250,6 +250,8 @@ def realign_concrete(ck, prog, f_inc, f_sd, dm):
             ("reference below the band, negative DM", ["1.2", "2.2", "2.4", "6.7"]), ("equal neighbours", ["3.1", "2.8", "2.2", "1.9", "0.2", "-0.4"])]
     if ck.run.tier == "quick":
         pats = pats[:3] + pats[5:]
+    # one channel: a delay relative to a reference outside the channel is still a delay
+    pats += [("single channel, late", ["2.7"]), ("single channel, early", ["-3.2"])]
     n_ok = 0
     dotted = f"{f_sd.module}.{f_sd.qualname}"
     for label, ds_ in pats:
